@@ -77,13 +77,30 @@ fn materialise(base: &Path, c: &Case) -> (PathBuf, Vec<String>) {
     let mut extra = String::new();
     for (k, f) in c.main.as_array().unwrap().iter().enumerate() {
         if f[0] == "nested" {
-            match if c.sigil.is_empty() { 1 + (c.id + k) % 2 } else { (c.id + k) % 3 } {
+            // by turns: a function nobody calls / a called function / the main expression, each plain and inline, then a
+            // let binding, a lambda body and the branch of an if (the classic compiler never looks at what nobody calls
+            // and has no let or lambda)
+            let m = nested_mod(&f[1], k);
+            let pos = if c.sigil.is_empty() { [1usize, 2, 4, 8][(c.id + k) % 4] } else { (c.id + k) % 9 };
+            match pos {
                 0 => mains.push(form_text(f, k)),
                 1 => {
                     mains.push(form_text(f, k));
                     extra.push_str(&format!(" (nest{k} X)"));
                 }
-                _ => extra.push_str(&format!(" (a {} (list X))", nested_mod(&f[1], k))),
+                2 => extra.push_str(&format!(" (a {m} (list X))")),
+                3 => mains.push(format!("(defun-inline nest{k} (Y) (a {m} (list Y)))")),
+                4 => {
+                    mains.push(format!("(defun-inline nest{k} (Y) (a {m} (list Y)))"));
+                    extra.push_str(&format!(" (nest{k} X)"));
+                }
+                5 => extra.push_str(&format!(" (let ((NL{k} {m})) (a NL{k} (list X)))")),
+                6 => extra.push_str(&format!(" (a (lambda ((& X) NZ{k}) (a {m} (list NZ{k}))) (list X))")),
+                7 => {
+                    mains.push(format!("(defun nest{k} (Y) (if Y (a {m} (list Y)) 0))"));
+                    extra.push_str(&format!(" (nest{k} X)"));
+                }
+                _ => extra.push_str(&format!(" (if X (a {m} (list X)) 0)")),
             }
         } else {
             mains.push(form_text(f, k));
